@@ -9,7 +9,7 @@ Hosts == { [host |-> "o.test", text |-> "o.test", labels |-> <<"o", "test">>, ki
            [host |-> "[::1]", text |-> "[::1]", labels |-> <<"::1">>, kind |-> "ipv6"] }
 Paths == { [path |-> <<>>, emptypath |-> TRUE], [path |-> <<"">>, emptypath |-> FALSE], [path |-> <<"a", "b">>, emptypath |-> FALSE] }
 Queries == {"-", "q=1", ""}
-Users == {"-", "u", "u:p"}
+Users == {"-", "u", "u:p", ":p"}
 \* port as typed: 0 = absent, 1 = the scheme's default spelled out, 2 = the OTHER scheme's default (https on 80,
 \* http on 443: not a default for this URL, so it must be named), other = that port
 PortTexts == {0, 1, 2, 8081}
